@@ -409,6 +409,20 @@ TFUNC_UNITS = [
         doc="F: the worker's OS thread binds itself once, with the mask of its GLOBAL worker number (machine mask if that is empty)"),
 ]
 
+# ---- thread_manager::init (added by main after seeded change C15-5 was missed): the thread offsets the global worker numbers are built from ----
+TM_CPP = "libs/pika/thread_manager/src/thread_manager.cpp"
+LOOP_TMINIT = ("__CPROVER_assigns(vx_it, threads_offset, g_cur_pool, g_visited, g_sum, g_cur_n, g_cur_n_valid, g_cur_inited, g_os_count_reads)\n"
+               "__CPROVER_loop_invariant(vx_it <= self->npools && g_visited == vx_it && threads_offset == g_sum && g_sum <= 0x10000 * vx_it && (vx_it == 0 || g_cur_inited))")
+TFUNC_UNITS.append(Unit("tm.init", "tminit.c", enforce="thread_manager_init", lifts={"body": Lift(TM_CPP, r"void thread_manager::init\(\)", rules=[
+    Sub(r"\bauto& (\w+) = pika::resource::get_partitioner\(\);", r"struct rp *\1 = get_partitioner();", None),
+    Sub(r"for \(auto&& (\w+) : pools_\)\s*\{", r"for (size_t vx_it = 0; vx_it != self->npools; ++vx_it) { struct pool *\1 = pools_at(self, vx_it);", 1),
+    Sub(r"\b(\w+)\.get_num_threads\(", r"rp_get_num_threads(\1, ", None),
+    Sub(r"\b(\w+)->(get_pool_index|get_os_thread_count)\(\)", r"pool_\2(\1)", None),
+    Sub(r"\b(\w+)->init\(", r"pool_init(\1, ", None),
+], loops={1: LOOP_TMINIT, "count": 1})}, funcs=[TM_CPP + ": thread_manager::init"], min_obligations=8,
+    doc="I: every pool, in order, is initialised with the partitioner's worker count for it and with thread offset = workers of all "
+        "pools before it (symbolic number of pools)"))
+
 NONE_UNITS = [
     Unit("none.init_branch", "none.c", defines=["U_NONE_BRANCH"], enforce="init_none_branch", lifts=NONE_LIFTS,
          funcs=[AD + ": affinity_data::init (the `none` branch)", AD_HPP + ": affinity_data::get_pu_num(num_thread)"], min_obligations=10),
